@@ -105,6 +105,13 @@ func (db *DB) Close() {
 	defer atomic.StoreUint32(&db.state, uint32(StateClosed))
 	db.closeC <- struct{}{}
 
+	// let the flusher drain the queued (older) memtables first: the active
+	// memtable is the newest one, and recovery replays every wal that is left
+	// into the memtable, which lookups trust over the tables. If the newest
+	// data reached a table while an older wal still existed, a crash here made
+	// the replayed older versions shadow it.
+	<-db.closed
+
 	mt := db.memtable
 	mt.freeze()
 	if mt.size() > 0 {
@@ -114,8 +121,6 @@ func (db *DB) Close() {
 			db.logger.Warnf("failed to delete immutable wal file: %v", err)
 		}
 	}
-
-	<-db.closed
 }
 
 func (db *DB) View(fn TxnFunc) error {
